@@ -56,6 +56,8 @@ def trace (line : String) : String :=
       | "fast" => traceFast c events
       | "spec" => " ".intercalate (Spec.W3C.run c events)
       | "specq" => " ".intercalate (Spec.W3C.run c events { histDomainRaw := true, sharedHistory := true })
+      | "spect" => " ".intercalate (Spec.W3C.run c events { transpilerSelect := true })
+      | "spectq" => " ".intercalate (Spec.W3C.run c events { transpilerSelect := true, histDomainRaw := true })
       | _ => "bad-engine"
     | none => "bad-chart"
   | _ => "bad-op"
